@@ -56,7 +56,7 @@ prop(
         "state, both generation counts, handle bytes) and the stored samples (kind, writer, sample state, generation counts, "
         "timestamp, instance) are symbolic, as are the three masks, max_samples, the optional specific instance handle "
         "(none / known / unknown). Oracle = a reference filter over the stored samples (in the three masks and of the "
-        "requested instance, first max_samples in storage order) plus the DDS 1.4 definitions of sample_rank, "
+        "requested instance, first max_samples in storage order -- with the single stored sample that fits the memory limit: the sample iff it matches) plus the DDS 1.4 definitions of sample_rank, "
         "generation_rank and absolute_generation_rank (2.2.2.5.1.9-11): the returned list is exactly the selected samples "
         "with the SampleInfo states at the time of the call, valid_data, handles, counts; read marks exactly those READ and "
         "keeps everything, take removes exactly those and keeps the others in order; the instances of returned samples "
@@ -64,18 +64,21 @@ prop(
         "is unknown. The two generation ranks are a recorded open finding (KF-C20-1: computed from transitions inside the "
         "collection instead of the samples' own counts); they are proved correct under the negated trigger. " + _MEM_NOTE +
         " This is why the quick tier stays at one stored sample with unwinding bound 2."),
-    bounds="quick: 0 stored samples / 2 instances (all masks), and 1 stored sample / 1 instance with unwind 2 (sample- and "
-           "view-state masks any non-empty subset, instance-state mask any singleton); thorough: 1 and 2 stored samples "
-           "over 2 instances with unwind 3 (all three masks any non-empty subset); max_samples 1..=4 or i32::MAX; generation "
-           "counts 0..10^6; handles with 2 symbolic bytes, writer guids with 1 symbolic byte",
-    outside="three or more stored samples and more than two instances (the thorough 2-sample harness already needs about "
-            "10 GB; 2 samples with unwind 4 ran out of 10 GB); max_samples <= 0; 'grouped by instance' beyond the storage order "
-            "the implementation returns (the DDS text allows either); storage orders other than reception order for the rank "
-            "oracle (BY_SOURCE_TIMESTAMP can store an older generation after a newer one); the UserDefinedDataReader wrapper "
-            "(clears DATA_AVAILABLE, then delegates) and reader_methods.rs (deserialisation through DynamicData: not executable "
-            "with this technique)",
-    level_text="Bounded model checking with Kani/CBMC of the real read/take on symbolic reader states of the stated sizes; reported "
-               "as level 'other'.",
+    bounds="quick: 0 stored samples / 2 instances (all masks, unwind 3), and 1 stored sample / 1 instance with unwind 2 (sample- and "
+           "view-state masks any non-empty subset, instance-state mask any singleton); thorough: 1 stored sample of one of 2 "
+           "instances with unwind 3 (all three masks any non-empty subset); max_samples 1..=4 or i32::MAX; generation counts "
+           "0..10^6; handles with 2 symbolic bytes, writer guids with 1 symbolic byte",
+    outside="TWO OR MORE STORED SAMPLES: measured, one read of 2 stored samples over 2 instances with unwind 3 exhausts 13 GB in "
+            "the SAT conversion (1 sample: 3.5 million variables / 7 GB with unwind 3, 1.3 million / 2.3 GB with unwind 2), so "
+            "the parts of the statement that need two samples -- the cut at max_samples inside a longer matching list, the order "
+            "of the returned list, sample_rank > 0, generation_rank relative to a later sample of the collection, take keeping the "
+            "order of the remaining samples -- are NOT decided by this check (the harness body is generic in the number of samples "
+            "and checks them; it cannot be run within the memory limit); max_samples <= 0; 'grouped by instance' (the "
+            "implementation returns storage order; the DDS text allows either); the UserDefinedDataReader wrapper (clears "
+            "DATA_AVAILABLE, then delegates) and reader_methods.rs (deserialisation through DynamicData: not executable with this "
+            "technique)",
+    level_text="Bounded model checking with Kani/CBMC of the real read/take on symbolic reader states with at most ONE stored sample; "
+               "reported as level 'other'.",
     level_note="trusted: Kani/CBMC, the pre-state constructors and the reference filter in harness/incrate/c20_read_take.rs. "
                "KF-C20-1 (generation ranks) is open and reported on every run; " + _STUBS,
     technique="Kani/CBMC symbolic execution of the real read/take, one step from a constructed pre-state",
